@@ -313,6 +313,7 @@ Section Model.
         | Ret (sh, cells) =>
             if (if list_eq_dec Nat.eq_dec sh [k] then true else false) then
               let '(d, e) := write_cells (pycast (vdtype v)) ps cells (vdata v) in (with_data v d, e)
+            else if negb (Nat.eqb (length sh) 1) then (v, Some ValueError)   (* nesting deeper than the destination: rejected before any cast *)
             else
               match cast_all (pycast (vdtype v)) cells with
               | Raise e => (v, Some e)
